@@ -8,7 +8,8 @@
     * parse_design consumes its own parentheses, resolves (cellRef c (libraryRef l)) by
       case-insensitive lookup and rejects undeclared targets;
     * separate_name_and_index('_') has no `&_` special case; the '[' branch uses endswith;
-    * multibit_add_cable looks the cable up by exact name / case-insensitive identifier (no glob).
+    * multibit_add_cable looks the cable up by exact name / case-insensitive identifier (no glob);
+      a bit whose index EQUALS the cable's lower index is merged into wire 0 (`>=`, not `>`).
   Outcome `Err.unsupported` marks inputs outside the modelled subset (no claim is made there).
   No Mathlib.
 -/
@@ -693,7 +694,7 @@ def sepIdent (ident : Str) : Option Nat × Str :=
 /-- merge a bit net (index `idx`, pins) into an existing array cable: the three branches of
     multibit_add_cable -/
 def mergeInto (ex : CCable) (idx : Nat) (pins : List CPin) : CCable :=
-  if idx > ex.lower then
+  if idx ≥ ex.lower then
     if idx < ex.lower + ex.wires.length then
       { ex with wires := ex.wires.set (idx - ex.lower) (ex.wires.getD (idx - ex.lower) [] ++ pins) }
     else
